@@ -23,7 +23,7 @@ from . import c11
 
 ID = "C16"
 TIERS = {
-    "quick": {"runs": 5000, "selftest": 16, "budget_s": 240, "chunk": 80},
+    "quick": {"runs": 8000, "selftest": 16, "budget_s": 240, "chunk": 80},
     "thorough": {"runs": 90000, "selftest": 64, "budget_s": 1500, "chunk": 200},
 }
 RULE = (
@@ -67,7 +67,7 @@ def generate(rnd, tier):
     big = rnd.random() < 0.09
     obj = c11.gen_source(rnd, "large" if big else rnd.choice(["tiny", "small", "small"]), False)
     r_ = rnd.random()
-    if not big and r_ < 0.12:
+    if not big and r_ < 0.2:
         # class sizes between the small and the large regime (41-130), and now and then very large ones
         # (more than 512 support points): size-dependent branches and blocked/vectorised paths live there
         for key in ("pos", "neg"):
